@@ -16,7 +16,7 @@ VERIF = os.path.dirname(HERE)
 
 
 def _replay_dir():
-    d = os.path.join(VERIF, 'replays')
+    d = os.environ.get('VERIF_REPLAY_DIR') or os.path.join(VERIF, 'replays')
     os.makedirs(d, exist_ok=True)
     return d
 
